@@ -182,6 +182,10 @@ func (c *vkConn) Read(p []byte) (int, error) {
 func (c *vkConn) Write(b []byte) (int, error) {
 	c.mu.Lock()
 	defer c.mu.Unlock()
+	if c.closed {
+		// a real socket refuses writes after Close: what the engine writes from then on never reaches the peer
+		return 0, net.ErrClosed
+	}
 	c.out = append(c.out, b...)
 	c.writes++
 	return len(b), nil
